@@ -51,7 +51,26 @@ def gen_items(rng, depth, nsubs, in_setup=False, allow_fail=True, fail_here=None
     return items
 
 
+def gen_directed(rng):
+    """Nested scenarios overriding the SAME property of the same object; the outer one is stopped from
+    outside (time limit / terminate) while the inner one is still running; the parent keeps reading."""
+    o, p = rng.randint(0, 1), rng.randint(0, 2)
+    inner = dict(setup=[["O", o, p, rng.randint(200, 299)]] + gen_items(rng, 1, 0, in_setup=True)[:2],
+                 compose=[["wait"]] * 5)
+    mid_setup = [["O", o, p, rng.randint(300, 399)]] + gen_items(rng, 1, 0, in_setup=True)[:2]
+    if rng.random() < 0.5:
+        mid_setup = mid_setup[1:] + mid_setup[:1]
+    mid = dict(setup=mid_setup, compose=[["wait"]] * rng.randint(0, 1) + [["do", 1]] + [["wait"]] * 3, term_after=rng.randint(1, 3))
+    main = gen_items(rng, 0, 0)[:2] + [["do", 0]] + [["wait"], ["W", 1 - o, p, 5], ["wait"]] + gen_items(rng, 0, 0)[:2]
+    beh = None if rng.random() < 0.5 else [["wait"], ["W", 0, rng.randint(0, 2), 150], ["wait"]]
+    fault = rng.choice(["none", "none", "raise-main", "reject-main", "sim-step", "terminate-main"])
+    return dict(main=main, subs=[mid, inner], beh=beh, fault=fault, fault_pos=rng.randint(3, 8), fault_step=rng.randint(2, 4),
+                raise_guard=True, directed=True)
+
+
 def gen_program(rng, idx):
+    if idx % 4 == 3:
+        return gen_directed(rng)
     nsubs = rng.randint(0, 2)
     subs = []
     for k in range(nsubs):
@@ -279,6 +298,8 @@ def main():
         c.count(key, nontrivial=nontriv)
         c.cov["traces_validated_against_impl"] += 1
         c.hist("fault:" + job["prog"]["fault"])
+        if job["prog"].get("directed"):
+            c.hist("directed:nested-same-property-outer-stopped")
         c.hist("outcome:" + r["outcome"].split(":")[0] + (":" + r["outcome"].split(":")[1] if ":" in r["outcome"] else ""))
         c.hist("history-len<=10" if len(ops) <= 10 else "history-len>10")
         c.hist("overrides", sum(1 for o in ops if o[0] == "O"))
